@@ -221,6 +221,8 @@ def run_corpus(mod, ops, res):
         if op is None:
             continue
         a = tuple(tuple(x) if isinstance(x, list) else x for x in entry["args"])
+        if hasattr(op, "from_corpus"):
+            a = op.from_corpus(a)
         out = engine.run_one(op, a, res)
         if op.model:
             batch.append((op, a, out))
@@ -515,6 +517,8 @@ def do_replay(mod, path):
     ops = {op.name: op for op in mod.ops()}
     op = ops[entry["op"]]
     a = tuple(tuple(x) if isinstance(x, list) else x for x in entry["args"])
+    if hasattr(op, "from_corpus"):
+        a = op.from_corpus(a)
     res = engine.Result()
     build(mod.LEAN_MODULES)
     out = engine.run_one(op, a, res)
